@@ -63,7 +63,39 @@ def register(M):
         if not (isinstance(s, Obj) and s.kind == 'tstr'):
             raise Inconclusive('replace_all on %r' % (s,))
         fcell = Cell(a[2], name='replacer')
+        # a replacer that is not a closure: a value of a crate type implementing `regex::Replacer` (possibly behind
+        # `by_ref()`): its `replace_append(&mut self, caps, dst)` is called per placeholder with `dst` = what was built so far
+        rep = ex.materialize(a[2])
+        rcell, rpath = None, None
+        for _ in range(4):
+            if isinstance(rep, Ref):
+                rcell, rpath = rep.cell, rep.path
+                rep = ex.materialize(ex.read_path(rcell, rpath))
+            elif isinstance(rep, Adt) and T.type_name_hint(rep.ty)[0] == 'ReplacerRef' and (None, 0) in rep.fields:
+                rep = ex.materialize(rep.fields[(None, 0)])
+            else:
+                break
+        append_body = None
+        if isinstance(rep, Adt) and not rep.ty.startswith('{closure@'):
+            h = T.type_name_hint(rep.ty)[0]
+            for (st, m), lst in ex.prog.by_method.items():
+                if m == 'replace_append' and st == h:
+                    append_body = lst[0][1]
         out = []
+        if append_body is not None:
+            if rcell is None:
+                rcell, rpath = Cell(rep, name='replacer'), ()
+            dst = Cell(Obj('tstr', parts=()), name='replace_all.dst')
+            for p in s.parts:
+                cur = ex.read_path(dst, ())
+                if p[0] != 'ph':
+                    ex.write_path(dst, (), cur.set(parts=cur.parts + (p,)))
+                    continue
+                caps = Obj('captures', groups=(Obj('tstr', parts=(p,)), p[1]))
+                ex.call_body(append_body, [Ref(rcell, rpath), Ref(Cell(caps), ()), Ref(dst, ())])
+            res = ex.read_path(dst, ())
+            M.log(ex, 'replace_all', src=s, out=res.parts)
+            return res
         for p in s.parts:
             if p[0] != 'ph':
                 out.append(p)
@@ -87,6 +119,39 @@ def register(M):
             raise Inconclusive('captures_iter on %r' % (s,))
         caps = [Obj('captures', groups=(Obj('tstr', parts=(p,)), p[1])) for p in s.parts if p[0] == 'ph']
         return Obj('iter', items=tuple(caps), ty=dty)
+
+    @reg('Replacer::by_ref')
+    def _(ex, info, a, dty):
+        return a[0]              # ReplacerRef(&mut R): the same replacer
+
+    def dst_append(ex, dref, part):
+        cell, path = ex.deref(dref)
+        cur = ex.read_path(cell, path)
+        if isinstance(cur, Obj) and cur.kind in ('str', 'symstr'):
+            cur = Obj('tstr', parts=(('val', cur),) if not (cur.kind == 'str' and cur.text == '""') else ())
+        if not (isinstance(cur, Obj) and cur.kind == 'tstr'):
+            raise Inconclusive('append to %r' % (cur,))
+        ex.write_path(cell, path, cur.set(parts=cur.parts + (part,)))
+
+    @reg('String::push_str')
+    def _(ex, info, a, dty):
+        dst_append(ex, a[0], ('val', str_of(ex, a[1])))
+        return UNIT
+
+    @reg('Captures::expand')
+    def _(ex, info, a, dty):
+        # `$N` / `$name` / `${..}` / `$$` inside the replacement are references to capture groups: the replacement is
+        # appended as written only when it contains none (a free Boolean per replacement text)
+        v = str_of(ex, a[1])
+        nm = v.name if isinstance(v, Obj) and v.kind == 'symstr' else repr(v)
+        c = str_of(ex, a[0])
+        g1 = c.groups[1] if isinstance(c, Obj) and c.kind == 'captures' and len(c.groups) > 1 else None
+        g1 = g1.name if isinstance(g1, Obj) and g1.kind == 'symstr' else repr(g1)
+        if ex.branch(z3.Bool('has-$-reference(%s)' % nm)):
+            dst_append(ex, a[2], ('val', Obj('symstr', name='expand(%s|%s)' % (nm, g1))))
+        else:
+            dst_append(ex, a[2], ('val', v))
+        return UNIT
 
     @reg('Captures::get')
     def _(ex, info, a, dty):
